@@ -201,7 +201,7 @@ def build():
                 }
             }''')
         f.loop(TL, invariants=[
-            ('steps_written_so_far', '''values@.len() == old(values)@.len() && extra_base == base + self.lanes * PREP_LANE_WIDTH && k == *actual_k && k_max == self.horner_packed_steps && it_.iter.end == k
+            ('steps_written_so_far', '''values@.len() == old(values)@.len() && extra_base == base + self.lanes * PREP_LANE_WIDTH && k == *actual_k && it_.iter.end == k''' + (' && k_max == self.horner_packed_steps' if re.search(r'let k_max\b', f.body) else '') + '''
                 && (forall|s: int| 1 <= s < t ==> #[trigger] step_ok(values@, self.preprocessed@, extra_base as int, self.horner_packed_steps as int, *first_idx as int, s, ma))
                 && (forall|q: int| 0 <= q < values@.len() && !(extra_base + (self.horner_packed_steps - 1) <= q < extra_base + (self.horner_packed_steps - 1) + PACKED_HORNER_STEP_PREP_WIDTH * (t - 1)) ==> #[trigger] values@[q] == v1[q])'''),
         ])
